@@ -25,18 +25,34 @@ def proj_records(records, tag):
         if probe and c["apps"]:
             expect = {a["dir"]: {"count": a["count"], "data": a["data"]} for a in c["apps"]}
         base = {"refuse": c["refuse"] != "", "why": c["refuse"], "ref": synlib.decode(c["ref"]) if c["refuse"] == "" else None,
-                "data": c["data"] if probe else synlib.GEO, "expect": expect, "ok": c["ok"] if probe else None,
+                "data": c["data"] if c["data"] else synlib.GEO, "expect": expect, "ok": c["ok"] if probe else None,
                 "passthrough": [synlib.decode(c["ref"])] if c["refuse"] == "" else [], "fam": c["fam"],
-                "canon_proj": synlib.decode(c["proj"])}
-        out.append(dict(base, id="%s-%d" % (tag, cid), proj=synlib.decode(c["proj"]), choices=[]))
-        for k, t in enumerate(texts[cid]):
-            out.append(dict(base, id="%s-%d-%d" % (tag, cid, k), proj=synlib.decode(t["t"]), choices=t["ch"].split(",")))
+                "canon_proj": synlib.decode(c["proj"]),
+                "resources": {k: synlib.decode(v) for k, v in (c.get("resources") or {}).items()}}
+        if c["fam"] == "pass":
+            # text that is not PROJ syntax: the text itself must come out of parse_proj unchanged and behave like the
+            # canonical one-line text of the same definition (exact operands where the model has them)
+            base["ok"] = c["ok"]
+            if c["apps"]:
+                base["expect"] = {a["dir"]: {"count": a["count"], "data": a["data"]} for a in c["apps"]}
+        for k, t in [(-1, {"t": c["proj"], "ch": ""})] + list(enumerate(texts[cid])):
+            text = synlib.decode(t["t"])
+            rec = dict(base, id="%s-%d" % (tag, cid) if k < 0 else "%s-%d-%d" % (tag, cid, k), proj=text,
+                       choices=[x for x in t["ch"].split(",") if x])
+            if c["fam"] == "pass":
+                rec["passthrough"] = base["passthrough"] + ([text] if text != base["ref"] else [])
+            out.append(rec)
     return out
 
 
 def features(row):
     """what the PROJ definition contains, read off its canonical text (for a stable signature)"""
     t = row.get("canon_proj") or row.get("proj") or ""
+    if row.get("fam") == "pass":
+        # a Geodesy definition; where the word proj occurs apart from the comment
+        r = row.get("ref") or ""
+        return (["proj-in-macro-name"] if "proj:" in r else ["proj-in-value"] if "proj" in r else []) \
+            + (["several-steps"] if "|" in r else [])
     pipe = t.startswith("proj=pipeline")
     hdr = t.split(" step ")[0] if pipe else ""
     f = []
@@ -47,6 +63,8 @@ def features(row):
         # a one-step pipeline with a directional step is its own class: the translation must stay a pipeline
         f.append("one-step-pipeline-with-omit" if one else "omit")
     body = t[len(hdr):] if pipe else " " + t
+    if " ellps=" in hdr and any(" a=" in st and " rf=" in st for st in body.split(" step ")):
+        f.append("global-ellps-and-a-rf-in-a-step")
     ga, gk = (" a=" in hdr or " rf=" in hdr), " k=" in hdr
     la, lk = (" a=" in body or " rf=" in body), " k=" in body
     if ga and la:
@@ -66,15 +84,24 @@ def features(row):
     return f
 
 
+TEXT_ONLY = ("passthrough_changed", "parse_proj_not_idempotent")
+
+
 def proj_key(row):
-    """layout choices + features of the definition: the minimal sets are reported, whatever the symptom"""
-    return "proj", frozenset([c for c in (row.get("choices") or []) if c] + ["has:" + f for f in features(row)])
+    """layout choices + features of the definition: the minimal sets are reported, whatever the symptom.
+    Text that is not PROJ syntax (family "pass") is kept apart, and there the two grades of "not unchanged":
+    the text comes back altered but means the same / the definition no longer means the same."""
+    kind = "proj"
+    if row.get("fam") == "pass":
+        same = all(f["what"] in TEXT_ONLY for f in row["fails"])
+        kind = "not-proj-syntax:text-altered-meaning-kept" if same else "not-proj-syntax:meaning-changed"
+    return kind, frozenset([c for c in (row.get("choices") or []) if c] + ["has:" + f for f in features(row)])
 
 
 def signature(sig):
-    _, _, ch = sig.partition("|")
+    kind, _, ch = sig.partition("|")
     items = sorted({c[4:] if c.startswith("has:") else "layout:" + c.split("=")[0] for c in ch.split(",") if c})
-    return "proj|%s" % "+".join(items)
+    return "%s|%s" % (kind, "+".join(items))
 
 
 def run(tier, seed):
@@ -85,7 +112,7 @@ def run(tier, seed):
     rows, ntexts, nontrivial, samples = [], 0, 0, []
     for cfg in cfgs:
         r = vlib.tlc_must_pass(vlib.tlc("MC_C17", cfg, workers=4, timeout=1500, xmx="12g", seed=seed))
-        vlib.require_coverage(r, ["PjInit"] + (["PjChoose"] if "lay" in cfg else []))
+        vlib.require_coverage(r, ["PjInit"] + (["PjChoose", "PassChoose"] if "lay" in cfg else []))
         res.add_tlc(r)
         recs = proj_records(r["records"], cfg)
         r["records"] = None
@@ -93,8 +120,10 @@ def run(tier, seed):
         ntexts += len(recs)
         # non-trivial: the translation has to do something beyond deleting "proj=": several steps, globals,
         # inversion, omissions, a/rf/k, a refusal, or a layout that is not the canonical one
-        nontrivial += sum(1 for x in recs if x["refuse"] or x["choices"] or " step " in x["canon_proj"].replace("proj=pipeline step ", "", 1)
-                          or features(x))
+        # (family "pass": texts that contain the word proj -- the others are passed on without being looked at)
+        nontrivial += sum(1 for x in recs if ("proj" in x["proj"] if x["fam"] == "pass" else
+                                              x["refuse"] or x["choices"] or features(x)
+                                              or " step " in x["canon_proj"].replace("proj=pipeline step ", "", 1)))
         if recs:
             samples.append({k: recs[len(recs) // 2][k] for k in ("proj", "ref", "refuse", "expect", "choices")})
         sm, rws = synlib.run_suite("proj", "C17-" + cfg, recs, timeout=1500)
@@ -105,13 +134,14 @@ def run(tier, seed):
     groups = {}
     for sig, rs in synlib.minimal_by_choices(rows, proj_key).items():
         groups.setdefault(signature(sig), []).extend(rs)
-    for sig, rs in sorted(groups.items(), key=lambda kv: (kv[0].count("+"), kv[0])):
+    for sig, rs in sorted(groups.items(), key=lambda kv: ("meaning-kept" in kv[0], kv[0].count("+"), kv[0])):
         w = min(rs, key=lambda x: (len(x.get("choices") or []), len(x.get("proj") or "")))
-        res.add_violation({"suite": "proj", "what": w["fails"][0]["what"], "def": w.get("proj"),
+        main = next((f for f in w["fails"] if f["what"] not in TEXT_ONLY), w["fails"][0])
+        res.add_violation({"suite": "proj", "what": main["what"], "def": w.get("proj"),
                            "expected": {"reference": w.get("ref"), "refuse": w.get("refuse")},
-                           "observed": {"translated": w.get("translated"), "fail": w["fails"][0]},
+                           "observed": {"translated": w.get("translated"), "fail": main},
                            "row": {k: w[k] for k in w if k != "observed"}, "occurrences": len(rs),
-                           "symptoms": sorted({x["fails"][0]["what"] for x in rs}), "signature": sig})
+                           "symptoms": sorted({f["what"] for x in rs for f in x["fails"]}), "signature": sig})
     res.samples = samples
     res.distinct_nontrivial = nontrivial
     res.exhaustive = True
@@ -123,16 +153,31 @@ def run(tier, seed):
                 "their meaning. A second family uses the operators both systems share (cart, helmert, utm, tmerc, merc, lcc, "
                 "laea, axisswap, unitconvert, noop, t_gamut; a+rf, k, global ellps; every combination of a/rf/k at pipeline level with "
                 "a/rf/k in the step, where the step's own must win) and refusals (init=, nested pipeline); these cases "
-                "are rendered in every layout with <=2 (quick) / <=3 (thorough) non-default choices over 8 dimensions ('+' "
-                "prefixes, blanks around '=', line per step, LF/CR/CRLF, comments, position of proj= and modifiers in a "
-                "step, order of the pipeline header, surrounding blanks). Each text is instantiated in a Plain context and "
+                "are rendered in every layout with <=2 (quick) / <=3 (thorough) non-default choices over 9 dimensions ('+' "
+                "prefixes, blanks around '=', blank / two blanks / tab between the elements, line per step (not indented, "
+                "indented by blanks or by a tab), LF/CR/CRLF, comments, position of proj= and modifiers in a "
+                "step, order of the pipeline header, surrounding blanks). A pipeline-level ellps is set against steps that "
+                "give a and rf themselves (the step's own ellipsoid must win). A third family is text that is NOT PROJ "
+                "syntax: Geodesy definitions of one step (or of several written with < >) that contain the word proj in a "
+                "comment, a macro name or a value, rendered by Syntax.tla with continuation lines, comments, line ends, "
+                "blanks: parse_proj must return them unchanged and Plain must instantiate them like their canonical "
+                "one-line text. Each text is instantiated in a Plain context and "
                 "compared with the reference Geodesy text: outcome, steps, step parameters, results in both directions bit "
                 "for bit, exact operands for the probes; parse_proj applied twice = once; the reference text passes "
                 "parse_proj unchanged; refusals. Non-trivial = texts whose translation involves more than deleting 'proj='.")
     res.assumptions = [
         "probe operators are defined by the harness; built-in operators take part only relationally (their numerics are never an oracle)",
         "PROJ text without a proj=pipeline header is a single operation (several steps without header are not PROJ and are not generated)",
-        "ellps given together with a/rf (in the same step or through the globals) is not generated: the documentation of parse_proj leaves it to fail later",
+        "ellps given together with a/rf is generated in one constellation only: ellps at pipeline level, a AND rf in the step (the step's own "
+        "values win; PROJ too lets a and rf override ellps). Not generated, because neither the statement nor the documentation of parse_proj "
+        "decides them ('all other cases ... will fail when instantiating', which they do not: unknown keys are ignored): ellps with a / rf in "
+        "the same step (the repo's own test pins 'tmerc ellps=GRS80 a=1'), ellps with only one of a / rf, a / rf at pipeline level against a "
+        "step's own ellps, +R, +b, +f, +es (all silently computed on the default or named ellipsoid)",
+        "+inv=true is not generated in PROJ text: the statement speaks of inv; PROJ's pipeline recognises the bare word only. (parse_proj hands "
+        "inv=true on as a parameter, Geodesy reads it as the modifier: at pipeline level every step is inverted but the order is kept)",
+        "blanks other than space and tab (NBSP, form feed, vertical tab) are not generated as separators",
+        "text that is not PROJ syntax = no proj= element outside comments; it is compared literally (the statement says 'unchanged'); where only "
+        "the text is altered and the meaning kept, the signature says so (not-proj-syntax:text-altered-meaning-kept)",
         "a and rf reaching a step through the pipeline globals mean the same as given in the step (PROJ appends the globals to every step); likewise k",
         "comments whose text contains '|' are not generated (parse_proj documents that such a text 'does not look like a PROJ string' and passes it on unchanged)",
         "k and k_0 given for the same step (directly or through the globals) is not generated: 'k is replaced by k_0 wherever it is encountered' would let the later one win, PROJ itself prefers k_0 whatever the order",
